@@ -218,6 +218,40 @@ var Scenarios = []Directed{
 		s.End()
 		s.Blocks(7, allHdr)
 	}},
+	{"majority_lost", []string{"C15"}, fam(0), func(s *Script) {
+		// an option holds two thirds inside the window and loses it before the window closes:
+		// proposal A by a re-vote, proposal B by a re-vote back and forth, proposal C because a voter is slashed away
+		s.Blocks(3, allHdr)
+		s.Begin(allHdr) // 4
+		s.expect(OK(s.Propose(1, 6, 3, 12, `{"minTrxGas":"15"}`, `{"minTrxGas":"25"}`)), "proposal A")
+		s.expect(OK(s.Propose(2, 6, 3, 12, `{"gasPrice":"30"}`, `{"gasPrice":"40"}`)), "proposal B")
+		s.expect(OK(s.Propose(3, 6, 3, 12, `{"slashRatio":"60"}`)), "proposal C")
+		s.End()
+		p := s.Proposals()
+		if len(p) != 3 {
+			s.expect(false, "three proposals in voting")
+			return
+		}
+		s.Blocks(1, allHdr)
+		s.Begin(allHdr) // 6: every proposal reaches 20 of 30 for option 0
+		for _, id := range p {
+			s.expect(OK(s.Vote(1, id, 0)), "a1 votes 0")
+			s.expect(OK(s.Vote(2, id, 0)), "a2 votes 0")
+		}
+		s.End()
+		s.Begin(allHdr) // 7: a2 moves to option 1 where there is one; a3 joins option 1
+		s.Vote(2, p[0], 1)
+		s.Vote(2, p[1], 1)
+		s.Vote(3, p[0], 1)
+		s.End()
+		s.Begin(Hdr{Evidence: []int{2}}) // 8: a2 is slashed (power 10 -> 5 at 50 %): proposals lose power and threshold moves
+		s.Vote(2, p[1], 0)               // and comes back on one of them with what is left
+		s.End()
+		s.Blocks(6, allHdr)
+		s.Begin(allHdr)
+		s.Transfer(4, 5, "1e18")
+		s.End()
+	}},
 	{"two_proposals_one_block", []string{"C15", "C16"}, fam(0), func(s *Script) {
 		s.Blocks(3, allHdr)
 		s.Begin(allHdr)
@@ -470,6 +504,69 @@ var Scenarios = []Directed{
 		}
 		s.End()
 		s.Blocks(8, allHdr)
+	}},
+	{"restart_truncated", []string{"C10", "C07"}, fam(1), func(s *Script) {
+		// more eligible delegatees than seats (3): the consensus set is the top three by power, which is not the
+		// first three in ledger (address) order; restarts while the truncation is active
+		s.Blocks(2, allHdr)
+		s.Begin(allHdr)
+		s.expect(OK(s.Stake(2, 2, "30e18")), "a2 becomes a candidate")
+		s.expect(OK(s.Stake(3, 3, "25e18")), "a3 becomes a candidate")
+		s.expect(OK(s.Stake(4, 4, "8e18")), "a4 becomes a candidate")
+		s.expect(OK(s.Stake(5, 5, "40e18")), "a5 becomes a candidate")
+		s.expect(OK(s.Stake(6, 6, "3e18")), "a6 becomes a candidate")
+		s.End()
+		s.Blocks(3, allHdr)
+		s.Restart()
+		s.Blocks(2, allHdr)
+		s.Begin(allHdr)
+		s.expect(OK(s.Stake(4, 4, "20e18")), "a4 overtakes a3")
+		s.End()
+		s.Restart()
+		s.Blocks(3, allHdr)
+		s.Begin(allHdr)
+		s.expect(OK(s.Stake(7, 1, "15e18")), "a delegation brings a1 back")
+		s.End()
+		s.Blocks(1, allHdr)
+		s.Restart()
+		s.Blocks(3, allHdr)
+	}},
+	{"unbond_period_shortened", []string{"C12", "C15"}, famWith(0, map[string]string{"lazyRewardBlocks": "10"}), func(s *Script) {
+		// governance shortens the unbonding period while stakes are waiting under the old one: stakes released
+		// afterwards mature before the older ones
+		s.Blocks(2, allHdr)
+		s.Begin(allHdr) // 3
+		s.expect(OK(s.Stake(4, 1, "4e18")), "a4 -> a1")
+		s.expect(OK(s.Stake(5, 1, "3e18")), "a5 -> a1")
+		s.expect(OK(s.Stake(6, 2, "2e18")), "a6 -> a2")
+		s.expect(OK(s.Stake(4, 2, "1e18")), "a4 -> a2")
+		s.expect(OK(s.Stake(5, 3, "2e18")), "a5 -> a3")
+		s.End()
+		s.Begin(allHdr) // 4
+		s.expect(OK(s.Propose(1, 6, 2, 10, `{"lazyRewardBlocks":"2"}`)), "proposal to shorten the unbonding period")
+		s.End()
+		p := s.Proposals()
+		s.Blocks(1, allHdr)
+		s.Begin(allHdr) // 6
+		for v := 1; v <= 3 && len(p) == 1; v++ {
+			s.Vote(v, p[0], 0)
+		}
+		s.End()
+		s.Blocks(3, allHdr)
+		// one release per block, heights 10..14; the new period is active from 11: the first stake (the only one
+		// in the unbonding ledger at that time) waits under the old period, the next one matures long before it
+		rel := [][2]int{{4, 1}, {5, 1}, {6, 2}, {4, 2}, {5, 3}}
+		for _, r := range rel {
+			s.Begin(allHdr)
+			ids := s.StakeIDs(r[0], r[1])
+			if len(ids) > 0 {
+				s.expect(OK(s.Unstake(r[0], r[1], ids[0])), "release")
+			} else {
+				s.expect(false, "stake to release exists")
+			}
+			s.End()
+		}
+		s.Blocks(12, allHdr)
 	}},
 	{"checktx_not_delivered", []string{"C12", "C06", "C11"}, famWith(0, map[string]string{"maxUpdatableStakeRatio": "100"}), func(s *Script) {
 		// mempool traffic that never makes it into a block must leave no trace: in particular the unstaking of a
